@@ -25,6 +25,7 @@ structure PReplay where
   pendingPoll : Assoc Nat := []       -- agent -> channel: PipeContext::poll in progress
   pendingTW : Assoc Nat := []         -- agent -> channel: took the consumer's waker, must wake it now
   inCall : Assoc (String × Nat) := [] -- agent -> (call kind, channel)
+  jobAgent : Assoc Nat := []          -- channel -> agent running its poll operation
   begun : Assoc Nat := []             -- agent -> channel: its poll operation began at `acq F`, the `cs F` is still to come
   setDepth : Assoc Nat := []          -- agent -> depth about to be set
   lastCons : Assoc String := []       -- agent -> outcome of the last consumer poll
@@ -75,6 +76,11 @@ def release (r : PReplay) (c : Nat) : Except String PReplay :=
     if s.chuteFn then (apply r c .chuteRun).map (·.1)
     else if s.pollFn && s.job.isNone then (apply r c .ctxFree).map (·.1)
     else .ok r
+
+/-- the events of a poll operation come from the agent that began it (the operation runs on one thread, inside the
+target's queue) -/
+def byJob (r : PReplay) (ag c : Nat) : Except String PReplay :=
+  if r.jobAgent.get c == some ag then .ok r else .error s!"an event of the poll operation of channel {c} comes from agent {ag}, which is not running it"
 
 def snapshotOf (s : PState) : String :=
   s!"{s.core.pending.length} {s.core.depth} {s.core.closed} {s.core.notify} {s.core.nsc.isSome} {s.core.bp.isSome}"
@@ -164,10 +170,11 @@ def replayEvent (r : PReplay) (ag : Nat) (ws : List String) : Except String PRep
         | some kid, some c =>
           let k := match r.pipes.get c with | some s => s.wakers.length | none => 0
           let (r1, _) ← apply r c .jobBegin
-          return { r1 with kOf := r1.kOf.put kid (c, k), pendingK := r1.pendingK.del ag, begun := r1.begun.put ag c }
+          return { r1 with kOf := r1.kOf.put kid (c, k), pendingK := r1.pendingK.del ag, begun := r1.begun.put ag c, jobAgent := r1.jobAgent.put c ag }
         | none, some c =>
           -- `*poll_fn = None`: the old value is destroyed while the lock is held, before the `cs` event
           if (r.pendingPoll.get ag).isSome then return r else
+          if r.jobAgent.get c != some ag then .error s!"the poll function of channel {c} is cleared outside its poll operation (by agent {ag})" else
           let (r1, _) ← apply r c .clearFn
           return { r1 with begun := r1.begun.put ag c }
         | _, _ => return r
@@ -217,6 +224,7 @@ def replayEvent (r : PReplay) (ag : Nat) (ws : List String) : Except String PRep
                 let (r1, s') ← apply r c .dropDone
                 pure (r1, s', false))
             | _, _ => (do
+                if r.jobAgent.get c != some ag then throw s!"a producer-side critical section of channel {c} outside its poll operation (agent {ag})"
                 let pre := (r.pipes.get c).getD default
                 let (r1, s') ← apply r c .prod
                 pure (r1, s', pre.core.notify && !s'.core.notify)))
@@ -226,10 +234,10 @@ def replayEvent (r : PReplay) (ag : Nat) (ws : List String) : Except String PRep
             let r2 := { r1 with lastP := r1.lastP.put ag c }
             return (if woke then { r2 with pendingTW := r2.pendingTW.put ag c } else r2)
       | _ => return r
-    | "inpending" => let (r1, _) ← apply r (natD (args.getD 0 "")) .inPending; return r1
-    | "inend" => let (r1, _) ← apply r (natD (args.getD 0 "")) .inEnd; return r1
-    | "yielded" => let (r1, _) ← apply r (natD (args.getD 0 "")) (.yield (natD (args.getD 1 ""))); return r1
-    | "pitem" => let (r1, _) ← apply r (natD (args.getD 0 "")) (.item (natD (args.getD 1 ""))); return r1
+    | "inpending" => let r ← byJob r ag (natD (args.getD 0 "")); let (r1, _) ← apply r (natD (args.getD 0 "")) .inPending; return r1
+    | "inend" => let r ← byJob r ag (natD (args.getD 0 "")); let (r1, _) ← apply r (natD (args.getD 0 "")) .inEnd; return r1
+    | "yielded" => let r ← byJob r ag (natD (args.getD 0 "")); let (r1, _) ← apply r (natD (args.getD 0 "")) (.yield (natD (args.getD 1 ""))); return r1
+    | "pitem" => let r ← byJob r ag (natD (args.getD 0 "")); let (r1, _) ← apply r (natD (args.getD 0 "")) (.item (natD (args.getD 1 ""))); return r1
     | "streamdrop" => let r0 ← release r (natD (args.getD 0 "")); let (r1, _) ← apply r0 (natD (args.getD 0 "")) .streamDrop; return r1
     | "fndrop" => let r0 ← release r (natD (args.getD 0 "")); let (r1, _) ← apply r0 (natD (args.getD 0 "")) .fnDrop; return r1
     | _ => return r
